@@ -372,23 +372,41 @@ def parse_case(line):
     return [[int(x) for x in f.split(",")] if f.strip() else [] for f in line.split(";")]
 
 
-def _run_sharded(cmd, lines, shards=NPROC, timeout=3000):
+def _run_sharded(cmd, lines, shards=NPROC, timeout=3000, crash_is_panic=False):
+    """crash_is_panic (harness runs): when the process dies or hangs on a batch, the batch is split until the
+    single case that kills it is found; that case gets the observation 9999 (a panic that escaped every guard,
+    e.g. inside a spawned task, or a hang) instead of making the whole check unusable"""
     if not lines:
         return []
     shards = max(1, min(shards, (len(lines) + 199) // 200))
     k = (len(lines) + shards - 1) // shards
     parts = [lines[i:i + k] for i in range(0, len(lines), k)]
 
-    def one(part):
-        p = subprocess.run(cmd, input="\n".join(part) + "\n", capture_output=True, text=True, timeout=timeout,
-                           env=ENV)
+    def attempt(part, tmo):
+        try:
+            p = subprocess.run(cmd, input="\n".join(part) + "\n", capture_output=True, text=True, timeout=tmo,
+                               env=ENV)
+        except subprocess.TimeoutExpired:
+            return None, "timeout after %ds" % tmo
         outl = p.stdout.split("\n")
         if outl and outl[-1] == "":
             outl.pop()
         if p.returncode != 0 or len(outl) != len(part):
-            raise Broken("%s: rc=%d, %d lines for %d cases; stderr: %s" % (
-                cmd, p.returncode, len(outl), len(part), p.stderr[-800:]))
-        return outl
+            return None, "rc=%d, %d lines for %d cases; stderr: %s" % (
+                p.returncode, len(outl), len(part), p.stderr[-800:])
+        return outl, ""
+
+    def one(part, tmo=timeout):
+        outl, why = attempt(part, tmo)
+        if outl is not None:
+            return outl
+        if not crash_is_panic:
+            raise Broken("%s: %s" % (cmd, why))
+        if len(part) == 1:
+            return [PANIC]
+        mid = len(part) // 2
+        sub = max(60, min(tmo, 30 + len(part)))      # a hang must not cost the full budget at every level
+        return one(part[:mid], sub) + one(part[mid:], sub)
 
     with ThreadPoolExecutor(max_workers=shards) as ex:
         res = list(ex.map(one, parts))
@@ -396,7 +414,7 @@ def _run_sharded(cmd, lines, shards=NPROC, timeout=3000):
 
 
 def run_harness(engine, lines, release=False, shards=NPROC, timeout=3000):
-    return _run_sharded([harness_bin(release), engine], lines, shards, timeout)
+    return _run_sharded([harness_bin(release), engine], lines, shards, timeout, crash_is_panic=True)
 
 
 def run_model(engine, lines, shards=NPROC):
